@@ -369,13 +369,14 @@ Proof.
   rewrite (H _ U1), (H _ U2), (H _ U3), (H _ U4). reflexivity.
 Qed.
 
-(* namespace, namePrefix, nameSuffix, labels, commonLabels, commonAnnotations of one kustomization (in the generated
-   transformer order, whatever their values): the hashed content and the hash request of every resource are unchanged.
-   Guards: `labels` entries carry no custom `fields`, every resource has a kind. *)
+(* namespace, namePrefix, nameSuffix, labels, commonLabels, commonAnnotations, replicas of one kustomization (in the
+   generated transformer order, whatever their values): the hashed content and the hash request of every resource are
+   unchanged.  Guards (those of run_transformers_keeps): `labels` entries carry no custom `fields`, no `images:`
+   directive, every resource has a kind. *)
 Theorem transformers_keep_content nonstr d m m' :
-  no_custom_fields d -> Forall has_kind m -> run_transformers nonstr d m = Ok m' ->
+  no_custom_fields d -> pd_images d = [] -> Forall has_kind m -> run_transformers nonstr d m = Ok m' ->
   Forall2 (fun r r' => content_of_node (r_node r') = content_of_node (r_node r) /\ r_needs_hash r' = r_needs_hash r) m m'.
 Proof.
-  intros Hn Hk H. pose proof (run_transformers_keeps nonstr d m m' Hn Hk H) as K.
-  clear H Hk Hn. induction K as [|r r' t t' K1 _ IH]; constructor; [apply keeps_content; exact K1|exact IH].
+  intros Hn Hi Hk H. pose proof (run_transformers_keeps nonstr d m m' Hn Hi Hk H) as K.
+  clear H Hk Hn Hi. induction K as [|r r' t t' K1 _ IH]; constructor; [apply keeps_content; exact K1|exact IH].
 Qed.
